@@ -22,6 +22,8 @@ RULE = ("An in-memory confluent_kafka client over a broker object (per-partition
         "committed offsets) that survives crashes. History = generated list of Produce(partition, "
         "n), AddPartition (refresh_partitions), Advance (a poll of the source), FinishConsumer(j) "
         "in any order, and Crash (the event loop and every Python object are discarded) followed "
+        "by a restart; optionally consumer invocations that raise (in incarnations that end in "
+        "a crash), auto.offset.reset given or left to its documented default (latest); followed "
         "by a restart with the same group id; configurations: 1-3 partitions, max_batch_size "
         "1-4, auto.offset.reset earliest/latest. Oracle: per partition and incarnation the "
         "emitted (low, high) ranges are contiguous and non-overlapping, start at the committed "
